@@ -58,10 +58,10 @@ func TestMain(m *testing.M) {
 		"deterministic-equals-primary-alone", "valid-under-primary-alone", "prf-set-checked", "prf-set-has-nonenabled-key",
 		"monitoring-success-checked", "monitoring-failure-checked", "addkey-id-refused", "op-refused")
 	core.Main(m, prop, "rotation", map[string]string{
-		"keyset.Manager / keyset.Handle / Handle.Public": "real",
+		"keyset.Manager / keyset.Handle / Handle.Public":                                                  "real",
 		"aead, daead, mac, signature, hybrid, jwt, streamingaead, prf factories (wrappers, full*Adapter)": "real",
 		"internal/prefixmap, internal/factoryutil, core/cryptofmt, internal/outputprefix":                 "real",
-		"all key types' primitives, proto serialization (Public(), parsed start keyset)":                   "real",
+		"all key types' primitives, proto serialization (Public(), parsed start keyset)":                  "real",
 		"crypto/rand":         "stub (simrng; key-ID draws scripted)",
 		"network":             "stub (message pool: late, duplicated, reordered delivery)",
 		"monitoring client":   "stub (in-memory event list registered via internalregistry)",
@@ -157,6 +157,7 @@ type world struct {
 	class   string
 	mon     bool
 	quiet   bool
+	stop    bool // a known finding blocks this run from going on
 	own     *side
 	foreign *side
 	palette []catalog.Entry
@@ -176,7 +177,9 @@ type world struct {
 
 var annotations = map[string]string{"world": "rotation"}
 
-func (w *world) guard(where string, f func()) {
+// guard runs f; a panic inside tink is a violation. It returns false when f
+// panicked and the panic is a known finding (the run then winds down).
+func (w *world) guard(where string, f func()) (ok bool) {
 	defer func() {
 		if p := recover(); p != nil {
 			s := fmt.Sprintf("%T", p)
@@ -184,9 +187,12 @@ func (w *world) guard(where string, f func()) {
 				panic(p)
 			}
 			w.r.Violation("C05/panic:"+w.class+"/"+where, fmt.Sprintf("%v", p))
+			w.stop = true
+			ok = false
 		}
 	}()
 	f()
+	return true
 }
 
 func (w *world) other(s *side) *side {
@@ -258,7 +264,7 @@ func runRotation(t *rapid.T) {
 		"produce", "produce", "produce", "produce", "deliver", "deliver", "deliver", "deliver", "deliver", "deliver",
 		"advance-producer", "advance-consumer", "advance-consumer", "foreign-add", "foreign-add", "foreign-produce", "foreign-produce"}
 	nSteps := rapid.IntRange(1, maxSteps).Draw(t, "nSteps")
-	for i := 0; i < nSteps; i++ {
+	for i := 0; i < nSteps && !w.stop; i++ {
 		w.step(rapid.SampledFrom(steps).Draw(t, "step"))
 		if n := len(w.own.order); n > w.maxLive {
 			w.maxLive = n
@@ -266,7 +272,7 @@ func runRotation(t *rapid.T) {
 	}
 	// every message reaches somebody holding whatever version, and then the one
 	// consumer who has meanwhile received the newest keyset
-	if len(w.own.versions) > 0 {
+	if len(w.own.versions) > 0 && !w.stop {
 		for _, m := range w.net {
 			if m.count == 0 && w.deliveries < 90 {
 				w.deliver(m, rapid.IntRange(0, len(w.cons)-1).Draw(t, "sweepTo"))
@@ -665,6 +671,11 @@ func (w *world) opAdd(s *side) {
 		}
 		k, rerr = rekey(src.key, pt, targetID)
 		if rerr != nil {
+			if catalog.Pooled(familyEntry(base, src.variant)) {
+				// RSA-SSA-PSS keys with salt length 0 cannot be serialized by the library
+				core.CountGlobal("rekey-not-possible")
+				return
+			}
 			t.Fatalf("harness: rekey %s to %s: %v", src, variant, rerr)
 		}
 		if !stub && !k.Parameters().Equal(familyEntry(base, variant).Params) {
@@ -679,6 +690,9 @@ func (w *world) opAdd(s *side) {
 		w.guard("Manager.AddKey", func() { id, err = s.mgr.AddKey(k) })
 	}
 	w.g.ClearScript()
+	if w.stop {
+		return
+	}
 	r.ObsErr(s.name+".add", err)
 	r.Logf("%s: %s %s/%s idPlan=%s%v -> id=%d err=%v", s.name, kind, base, variant, plan, script, id, err)
 	if err != nil {
@@ -782,6 +796,9 @@ func (w *world) keyOp(s *side, op string) {
 			err = s.mgr.Delete(id)
 		}
 	})
+	if w.stop {
+		return
+	}
 	w.r.ObsErr(s.name+"."+op, err)
 	w.r.Logf("%s: %s(%d) -> %v", s.name, op, id, err)
 	if err != nil {
@@ -822,6 +839,10 @@ func (w *world) reimport() {
 	}
 	last := s.versions[len(s.versions)-1]
 	ks := insecurecleartextkeyset.KeysetMaterial(last.h)
+	if ks == nil {
+		core.CountGlobal("keyset-not-serializable")
+		return
+	}
 	for _, k := range ks.Key {
 		if k.KeyId == ks.PrimaryKeyId {
 			continue
@@ -845,6 +866,10 @@ func (w *world) reimport() {
 	if err != nil {
 		t.Fatalf("harness: stored keyset does not parse: %v", err)
 	}
+	if h == nil {
+		w.stop = true
+		return
+	}
 	w.r.Logf("own: keyset re-imported from storage with edited statuses")
 	w.publishHandle(s, h)
 	w.newManager(s, h)
@@ -862,6 +887,10 @@ func (w *world) publish(s *side) {
 		if s.hasPrimary {
 			w.t.Fatalf("harness: Manager.Handle failed although a primary is set: %v", err)
 		}
+		return
+	}
+	if h == nil {
+		w.stop = true // Handle() panicked and the panic is a known finding
 		return
 	}
 	w.publishHandle(s, h)
@@ -938,11 +967,25 @@ func (w *world) startParsed() {
 	if err := s.mgr.SetPrimary(prim); err != nil {
 		t.Fatalf("harness: start keyset: %v", err)
 	}
-	h0, err := s.mgr.Handle()
+	var h0 *keyset.Handle
+	var err error
+	w.guard("Manager.Handle", func() { h0, err = s.mgr.Handle() })
 	if err != nil {
 		t.Fatalf("harness: start keyset: %v", err)
 	}
+	if h0 == nil {
+		w.stop = true
+		return
+	}
 	ks := insecurecleartextkeyset.KeysetMaterial(h0)
+	if ks == nil {
+		// a key the library cannot serialize (RSA-SSA-PSS with salt length 0): start unparsed
+		core.CountGlobal("keyset-not-serializable")
+		w.startKind = "unparsed"
+		s.hasPrimary = true
+		w.publishHandle(s, h0)
+		return
+	}
 	dead := 0
 	for _, k := range ks.Key {
 		if k.KeyId == prim {
@@ -966,6 +1009,10 @@ func (w *world) startParsed() {
 	if err != nil {
 		t.Fatalf("harness: start keyset does not parse: %v", err)
 	}
+	if h == nil {
+		w.stop = true
+		return
+	}
 	// the model's key objects are the parsed ones from now on
 	for _, a := range s.all {
 		a.key = nil
@@ -987,8 +1034,9 @@ func (w *world) publicHandle(v *version) *keyset.Handle {
 	var pub *keyset.Handle
 	var err error
 	w.guard("Handle.Public", func() { pub, err = v.h.Public() })
-	if err != nil {
+	if err != nil || pub == nil {
 		w.r.Violation("C05/factory-refused:"+w.class+"/Public", fmt.Sprintf("Public() of version %s: %v", v, err))
+		return nil
 	}
 	if w.mon {
 		// Public() drops the annotations; a verifying / encrypting party that wants monitoring sets its own
@@ -996,7 +1044,9 @@ func (w *world) publicHandle(v *version) *keyset.Handle {
 		if err := m.SetAnnotations(annotations); err != nil {
 			w.t.Fatalf("harness: %v", err)
 		}
-		if pub, err = m.Handle(); err != nil {
+		pub = nil
+		w.guard("Manager.Handle", func() { pub, err = m.Handle() })
+		if err != nil {
 			w.t.Fatalf("harness: re-annotating the public handle: %v", err)
 		}
 	}
@@ -1005,7 +1055,11 @@ func (w *world) publicHandle(v *version) *keyset.Handle {
 
 func (w *world) producerFor(h *keyset.Handle, v *version) (*classes.Producer, error) {
 	if w.class == classes.Hybrid && v != nil {
-		e, err := hybrid.NewHybridEncrypt(w.publicHandle(v))
+		pub := w.publicHandle(v)
+		if pub == nil {
+			return nil, fmt.Errorf("no public handle")
+		}
+		e, err := hybrid.NewHybridEncrypt(pub)
 		if err != nil {
 			return nil, err
 		}
@@ -1020,13 +1074,21 @@ func (w *world) acceptorFor(h *keyset.Handle, v *version) (*classes.Acceptor, er
 	if v != nil {
 		switch w.class {
 		case classes.Signature:
-			vf, err := signature.NewVerifier(w.publicHandle(v))
+			pub := w.publicHandle(v)
+			if pub == nil {
+				return nil, fmt.Errorf("no public handle")
+			}
+			vf, err := signature.NewVerifier(pub)
 			if err != nil {
 				return nil, err
 			}
 			return &classes.Acceptor{Class: w.class, Raw: vf, Accept: func(out, msg, aux []byte) error { return vf.Verify(out, msg) }}, nil
 		case classes.JWTSignature:
-			vf, err := jwt.NewVerifier(w.publicHandle(v))
+			pub := w.publicHandle(v)
+			if pub == nil {
+				return nil, fmt.Errorf("no public handle")
+			}
+			vf, err := jwt.NewVerifier(pub)
 			if err != nil {
 				return nil, err
 			}
@@ -1052,7 +1114,10 @@ func (w *world) acceptorFor(h *keyset.Handle, v *version) (*classes.Acceptor, er
 func (w *world) producer(v *version) *classes.Producer {
 	if v.prod == nil {
 		var err error
-		w.guard("NewProducer", func() { v.prod, err = w.producerFor(v.h, v) })
+		if !w.guard("NewProducer", func() { v.prod, err = w.producerFor(v.h, v) }) || w.stop {
+			v.prod = nil
+			return nil
+		}
 		if err != nil || v.prod == nil {
 			w.r.Violation("C05/factory-refused:"+w.class+"/produce", fmt.Sprintf("version %s: %v", v, err))
 			return nil
@@ -1067,7 +1132,10 @@ func (w *world) producer(v *version) *classes.Producer {
 func (w *world) acceptor(v *version) *classes.Acceptor {
 	if v.acc == nil {
 		var err error
-		w.guard("NewAcceptor", func() { v.acc, err = w.acceptorFor(v.h, v) })
+		if !w.guard("NewAcceptor", func() { v.acc, err = w.acceptorFor(v.h, v) }) || w.stop {
+			v.acc = nil
+			return nil
+		}
 		if err != nil || v.acc == nil {
 			w.r.Violation("C05/factory-refused:"+w.class+"/accept", fmt.Sprintf("version %s: %v", v, err))
 			return nil
@@ -1142,7 +1210,9 @@ func (w *world) checkPRFSet(v *version, set *prf.Set) {
 		mark := mon.mark()
 		var out []byte
 		var err error
-		w.guard("PRFs[id].ComputePRF", func() { out, err = set.PRFs[id].ComputePRF(input, 16) })
+		if !w.guard("PRFs[id].ComputePRF", func() { out, err = set.PRFs[id].ComputePRF(input, 16) }) {
+			return
+		}
 		if want[id] == nil {
 			continue
 		}
@@ -1230,7 +1300,9 @@ func (w *world) produceOnce(v *version, prod *classes.Producer, prim *vent, msg,
 	mark := mon.mark()
 	var out []byte
 	var err error
-	w.guard("produce", func() { out, err = prod.Produce(msg, aux) })
+	if !w.guard("produce", func() { out, err = prod.Produce(msg, aux) }) {
+		return nil
+	}
 	if err != nil {
 		r.Violation("C05/produce-failed:"+class, fmt.Sprintf("version %s: %v", v, err))
 		return nil
@@ -1280,7 +1352,9 @@ func (w *world) produceOnce(v *version, prod *classes.Producer, prim *vent, msg,
 		r.Probe("deterministic-equals-primary-alone")
 	} else {
 		var aerr error
-		w.guard("single/accept", func() { aerr = sg.acc.Accept(out, msg, aux) })
+		if !w.guard("single/accept", func() { aerr = sg.acc.Accept(out, msg, aux) }) {
+			return nil
+		}
 		if aerr != nil {
 			r.Violation("C05/output-not-valid-under-primary-alone:"+class, fmt.Sprintf("primary %s: %v; version %s", prim.ident, aerr, v))
 		}
@@ -1435,7 +1509,9 @@ func (w *world) deliver(m *message, ci int) {
 	// what tink does
 	mark := mon.mark()
 	var err error
-	w.guard("accept", func() { err = acc.Accept(m.out, m.msg, m.aux) })
+	if !w.guard("accept", func() { err = acc.Accept(m.out, m.msg, m.aux) }) {
+		return
+	}
 	got := err == nil
 	r.ObsS("deliver", fmt.Sprintf("#%d->v%d %v", m.seq, v.idx, got))
 	r.Logf("deliver #%d (by mat%d/%s/id=%d from v%d) to consumer %d at v%d %s: want %s, got err=%v", m.seq, m.by.mat, m.by.variant, m.by.id, m.from.idx, ci, v.idx, v, outcome, err)
